@@ -22,7 +22,7 @@ import time
 import numpy as np
 import z3
 
-from vf.common import real, VERIF
+from vf.common import real, VERIF, REPO
 from vf.dcsym import shadow, quiet
 from vf.symx import (Engine, SBool, SFloat, SInt, SReal, NotModelled, ite,
                      tobool, toint, toreal)
@@ -408,7 +408,7 @@ def ch_conditions():
 
 def run_crosshair(name, line, budget):
     t0 = time.time()
-    env = dict(os.environ, PYTHONPATH=str(VERIF) + ":/repo",
+    env = dict(os.environ, PYTHONPATH=str(VERIF) + ":" + str(REPO),
                PYTHONHASHSEED="0")
     cmd = [sys.executable, "-m", "crosshair", "check", "--report_all",
            "--per_condition_timeout", str(budget),
